@@ -3,6 +3,7 @@ package wire
 import (
 	"bytes"
 	"context"
+	"encoding/binary"
 	"errors"
 	"fmt"
 	"io"
@@ -140,6 +141,102 @@ type BinaryCopyReader struct {
 	typeMap  *pgtype.Map
 	reader   *CopyReader
 	scanners []Scanner
+	pending  []byte // copy data which has been received but not yet decoded
+	started  bool   // whether the (optional) file header has been handled
+	done     bool   // whether the end of the copy-in stream has been reached
+}
+
+// fill reads CopyData messages until at least size bytes of the copy-in stream
+// are pending. The stream is a plain byte stream, rows and fields are allowed
+// to span multiple CopyData messages. An io.EOF error is returned if the
+// stream ends before the requested amount of bytes is available.
+func (r *BinaryCopyReader) fill(size int) error {
+	for len(r.pending) < size {
+		if r.done {
+			return io.EOF
+		}
+
+		err := r.reader.Read()
+		if err == io.EOF {
+			r.done = true
+			return io.EOF
+		}
+
+		if err != nil {
+			return err
+		}
+
+		r.pending = append(r.pending, r.reader.Msg...)
+		r.reader.Msg = r.reader.Msg[len(r.reader.Msg):]
+	}
+
+	return nil
+}
+
+// take returns the next size bytes of the copy-in stream. A stream ending
+// before the requested bytes have been received is reported as an unexpected EOF.
+func (r *BinaryCopyReader) take(size int) ([]byte, error) {
+	err := r.fill(size)
+	if err == io.EOF {
+		return nil, io.ErrUnexpectedEOF
+	}
+
+	if err != nil {
+		return nil, err
+	}
+
+	value := r.pending[:size]
+	r.pending = r.pending[size:]
+	return value, nil
+}
+
+// takeLength returns the next 32-bit length of the copy-in stream. Lengths
+// exceeding the maximum message size are rejected to bound the amount of
+// pending data.
+func (r *BinaryCopyReader) takeLength() (uint32, error) {
+	value, err := r.take(4)
+	if err != nil {
+		return 0, err
+	}
+
+	length := binary.BigEndian.Uint32(value)
+	if length != math.MaxUint32 && uint64(length) > uint64(r.reader.MaxMessageSize) {
+		return 0, fmt.Errorf("length %d exceeds the maximum message size %d", length, r.reader.MaxMessageSize)
+	}
+
+	return length, nil
+}
+
+// skipHeader consumes the binary file header if the stream starts with one.
+// https://www.postgresql.org/docs/current/sql-copy.html
+func (r *BinaryCopyReader) skipHeader() error {
+	err := r.fill(len(CopySignature))
+	if err != nil && err != io.EOF {
+		return err
+	}
+
+	if !bytes.HasPrefix(r.pending, CopySignature) {
+		return nil
+	}
+
+	// NOTE: the signature is followed by a 32-bit flags field and the 32-bit
+	// length of the header extension area, both are ignored for now.
+	_, err = r.take(len(CopySignature) + 4)
+	if err != nil {
+		return err
+	}
+
+	extension, err := r.takeLength()
+	if err != nil {
+		return err
+	}
+
+	if extension == math.MaxUint32 {
+		return errors.New("unexpected header extension area length")
+	}
+
+	_, err = r.take(int(extension))
+	return err
 }
 
 // Read reads a single row from the copy-in stream. The read row is returned as a
@@ -150,31 +247,44 @@ func (r *BinaryCopyReader) Read(ctx context.Context) (_ []any, err error) {
 		return nil, ctx.Err()
 	}
 
-	// NOTE: read the next chunk from the copy-in stream if the current chunk is empty.
-	if len(r.reader.Msg) == 0 {
-		err = r.reader.Read()
+	if !r.started {
+		r.started = true
+		err = r.skipHeader()
+		if err != nil {
+			return nil, fmt.Errorf("unexpected header: %w", err)
+		}
+	}
+
+	// NOTE: the stream is allowed to end in between two rows.
+	err = r.fill(2)
+	if err == io.EOF && len(r.pending) == 0 {
+		return nil, io.EOF
+	}
+
+	if err != nil && err != io.EOF {
+		return nil, err
+	}
+
+	value, err := r.take(2)
+	if err != nil {
+		return nil, err
+	}
+
+	fields := binary.BigEndian.Uint16(value)
+
+	// NOTE: the file trailer consists of a 16-bit integer word containing -1.
+	// Nothing but the end of the copy-in stream is expected to follow.
+	if fields == math.MaxUint16 {
+		err = r.fill(1)
+		if err == io.EOF {
+			return nil, io.EOF
+		}
+
 		if err != nil {
 			return nil, err
 		}
 
-		has := bytes.HasPrefix(r.reader.Msg, CopySignature)
-		if has {
-			_, err = r.reader.GetBytes(len(CopySignature))
-			if err != nil {
-				return nil, err
-			}
-
-			// NOTE: 2 x 32-bit integer fields are send after the signature which we ignore for now.
-			_, err = r.reader.GetBytes(8)
-			if err != nil {
-				return nil, err
-			}
-		}
-	}
-
-	fields, err := r.reader.GetUint16()
-	if err != nil {
-		return nil, err
+		return nil, errors.New("unexpected copy data after the file trailer")
 	}
 
 	if int(fields) != len(r.scanners) {
@@ -183,7 +293,7 @@ func (r *BinaryCopyReader) Read(ctx context.Context) (_ []any, err error) {
 
 	row := make([]any, fields)
 	for index := range fields {
-		length, err := r.reader.GetUint32()
+		length, err := r.takeLength()
 		if err != nil {
 			return nil, fmt.Errorf("unexpected field length: %w", err)
 		}
@@ -194,7 +304,7 @@ func (r *BinaryCopyReader) Read(ctx context.Context) (_ []any, err error) {
 			continue
 		}
 
-		value, err := r.reader.GetBytes(int(length))
+		value, err := r.take(int(length))
 		if err != nil {
 			return nil, fmt.Errorf("unexpected value: %w", err)
 		}
